@@ -8,9 +8,9 @@ from vlib import trajcorr
 ID = 'C04'
 GENS = ['units', 'consts']
 TARGETS = ['BC.Props.C04']
-PROP_FILES = ['BC/Props/C04.lean', 'BC/Lemmas/Loop.lean']
+PROP_FILES = ['BC/Props/C04.lean', 'BC/Lemmas/Loop.lean', 'BC/Lemmas/C04Term.lean']
 THEOREMS = ['C04_limit_reason_spec', 'C04_reason_truthful', 'C04_ok_respects_limits', 'C04_limits_only_stop', 'C04_prefix_unperturbed',
-            'C04_loop_outcomes', 'C04_vertical_velocity_step']
+            'C04_loop_outcomes', 'C04_vertical_velocity_step', 'C04_terminates_partial', 'C04_below_floor_stops']
 STATEMENTS = {
     'C04_limit_reason_spec': 'limitReason = first violated limit in the order velocity, drop, altitude; none iff all three respected',
     'C04_reason_truthful': 'iterate = error(range reason rows) -> the post-step state violates exactly that limit (first in precedence) and the '
@@ -19,14 +19,17 @@ STATEMENTS = {
     'C04_limits_only_stop': 'one iteration under other limit values: identical loop state, or one of the two stops; rows minus the last = the other run\'s rows',
     'C04_prefix_unperturbed': 'induction over iterations: all rows of the incomplete trajectory except the last are identical to the rows of the run without that limit',
     'C04_loop_outcomes': 'a run ends in a result, the range error, ZeroDivisionError, math domain error, or (model only) exhausted fuel; never a zero-finding error',
+    'C04_terminates_partial': 'PARTIAL (a positive lower bound on the time step, i.e. a speed bound along the run, is a hypothesis): with g<0, the vertical-velocity inequality and '
+                              'y\' = y + v_y\' dt, the height falls below ANY floor after finitely many steps',
+    'C04_below_floor_stops': 'a state below the maximum drop cannot be carried on by the loop (so the run stops there at the latest)',
     'C04_vertical_velocity_step': 'g<0, 0 <= drag*dt <= 1, no vertical wind: v_y\' <= max(v_y,0) + g*dt (arithmetic core of termination)',
 }
 TRUSTED = [
     'Lean 4.33.0 kernel; Mathlib; axioms propext, Classical.choice, Quot.sound',
     'hand-written model BC/Model/Traj.lean tied to _integrate by the bit-exact correspondence op fire on limit configurations '
     '(velocity/drop/altitude limits, vertical, downward, slow and zero-velocity launches, plain and extra): identical rows, identical reason',
-    'termination for every finite input is NOT proved (the model loop takes fuel; the theorem C04_vertical_velocity_step is only its '
-    'arithmetic core): it is watched by a wall-clock watchdog in the search',
+    'termination is proved only conditionally (C04_terminates_partial needs a speed bound along the run; the model loop takes fuel): for arbitrary inputs it is '
+    'watched by a wall-clock watchdog in the search',
 ]
 ASSUME = ['finite inputs, downward gravity', 'exceptions.RangeError stores reason / incomplete_trajectory / last_distance as written (checked by the search)']
 RULE = ('shots under random limit configurations incl. vertical (+-90 deg), downward, very slow and zero-velocity launches, ranges beyond reach, '
